@@ -106,9 +106,18 @@ func dumpCfg(n *absnfs.AbsfsNFS) string {
 		b(o.CacheNegativeLookups)+b(o.EnableDirCache)+b(o.TCPKeepAlive)+b(o.TCPNoDelay)+b(o.Async), b(o.ReadOnly), b(o.Secure), hx([]byte(o.Squash)), o.MaxFileSize, b(o.EnableRateLimiting), rl, len(o.AllowedIPs))
 }
 
+// reported-vs-in-force differences seen by the last runCfgOps (index of the `cfg get` op, description)
+type cfgDiff struct {
+	at   int
+	what string
+}
+
+var cfgNotInForce []cfgDiff
+
 var cfgSrv *Srv // the server of the case being run (used by the oracle's I/O probe)
 
 func runCfgOps(ops []string) []string {
+	cfgNotInForce = nil
 	out := make([]string, len(ops))
 	var n *absnfs.AbsfsNFS
 	defer func() {
@@ -145,6 +154,30 @@ func runCfgOps(ops []string) []string {
 				out[i] = "none"
 			} else {
 				out[i] = dumpCfg(n)
+				// the components work with what is reported
+				{
+					o := n.GetExportOptions()
+					am, at, dm, dt, wk := absnfs.VerifInForce(n)
+					var diff []string
+					if am != o.AttrCacheSize {
+						diff = append(diff, fmt.Sprintf("AttrCacheSize reported %d, attribute cache holds at most %d", o.AttrCacheSize, am))
+					}
+					if at != o.AttrCacheTimeout {
+						diff = append(diff, fmt.Sprintf("AttrCacheTimeout reported %v, attribute cache uses %v", o.AttrCacheTimeout, at))
+					}
+					if o.EnableDirCache && dm != 0 && dm != o.DirCacheMaxEntries {
+						diff = append(diff, fmt.Sprintf("DirCacheMaxEntries reported %d, directory cache holds at most %d", o.DirCacheMaxEntries, dm))
+					}
+					if o.EnableDirCache && dm != 0 && dt != o.DirCacheTimeout {
+						diff = append(diff, fmt.Sprintf("DirCacheTimeout reported %v, directory cache uses %v", o.DirCacheTimeout, dt))
+					}
+					if wk != 0 && wk != o.MaxWorkers {
+						diff = append(diff, fmt.Sprintf("MaxWorkers reported %d, the pool runs %d", o.MaxWorkers, wk))
+					}
+					if len(diff) > 0 {
+						cfgNotInForce = append(cfgNotInForce, cfgDiff{at: i, what: strings.Join(diff, "; ")})
+					}
+				}
 				// what GetExportOptions hands out is the caller's: scribbling over it must not reach the live configuration
 				o := n.GetExportOptions()
 				if o.Timeouts != nil {
@@ -294,6 +327,12 @@ func cfgOracle(r *Result, ops, impl []string) {
 		}
 	}
 	pre := func(i int) []string { return append([]string(nil), ops[:i+1]...) }
+	for _, d := range cfgNotInForce {
+		if d.at < len(ops) {
+			r.violate(Violation{Class: "C24/reported-not-in-force", What: "GetExportOptions does not report the configuration in force: " + d.what, Ops: pre(d.at)})
+			break
+		}
+	}
 	lastGet := ""
 	for i, op := range ops {
 		if strings.HasPrefix(impl[i], "aliased:") {
